@@ -1,0 +1,51 @@
+//go:build verif
+
+package message
+
+// Verification hooks (build tag `verif`): add-only constructors and accessors for the external harness.
+
+import (
+	"sync"
+
+	"github.com/confluentinc/confluent-kafka-go/kafka"
+
+	kafkainterface "github.com/digitalocean/firebolt/kafka"
+	"github.com/digitalocean/firebolt/node/kafkaproducer"
+)
+
+// VerifNewKafkaMessageReceiver builds a receiver over the given client without starting a goroutine.
+func VerifNewKafkaMessageReceiver(c kafkainterface.MessageConsumer, topic string, partitionCount int, notifier NotificationFunc) *KafkaMessageReceiver {
+	return &KafkaMessageReceiver{
+		consumer:       c,
+		topic:          topic,
+		notifier:       notifier,
+		partitionCount: partitionCount,
+		initMutex:      sync.RWMutex{},
+		initBuffer:     make(map[string]*wireMessage),
+	}
+}
+
+// VerifProcessEvent exposes processEvent.
+func (r *KafkaMessageReceiver) VerifProcessEvent(ev kafka.Event) { r.processEvent(ev) }
+
+// VerifBuildPartitionAssignments exposes buildPartitionAssignments.
+func (r *KafkaMessageReceiver) VerifBuildPartitionAssignments(parts []kafka.PartitionMetadata) []kafka.TopicPartition {
+	return r.buildPartitionAssignments(parts)
+}
+
+// VerifBuildConfigMap exposes buildConfigMap.
+func (r *KafkaMessageReceiver) VerifBuildConfigMap(config map[string]string) (*kafka.ConfigMap, error) {
+	return r.buildConfigMap(config)
+}
+
+// VerifNewKafkaMessageSender builds a sender over an already constructed producer node.
+func VerifNewKafkaMessageSender(p *kafkaproducer.KafkaProducer, topic string) Sender {
+	return KafkaMessageSender{producer: p, topic: topic}
+}
+
+// VerifSetSender installs the sender singleton.
+func VerifSetSender(s Sender) {
+	senderLock.Lock()
+	defer senderLock.Unlock()
+	senderSingleton = s
+}
